@@ -1,2 +1,64 @@
-(* C08 — placeholder while the proofs are being written *)
-From DV Require Import Run_C08.
+(* C08 — A peer is served data only for rooms it is a member of.
+   Property theorems only: statement, exact, Print Assumptions.  Proofs: proofs/C08P.v (+ RightsP.v).
+   Model: model/Outbound.v, an interpreter of gen/OutboundTable.v (regenerated from the source on
+   every run by tools/extract_outbound.py).  run_C08 / spec_C08 / known_C08: run/Run_C08.v. *)
+From DV Require Import RightsP Run_C08 C08P.
+Open Scope N_scope.
+
+(* the property at full strength, about the functions the harness evaluates *)
+Definition C08_full : Prop := forall c, wf_case c = true -> spec_C08 c (run_C08 c) = true.
+
+(* (1) the generated request table: every request kind that names a room is guarded by
+   allowed_room.contains(that room), hands that same room to its data source, sends no success
+   answer outside the guard, refuses otherwise, and its data source restricts rows to the room;
+   RoomList answers only a proven, ready key from rooms_for_peer(key, now); allowed_room is written
+   only by RoomList and by the definition event under room.has_user(key).  This is the obligation
+   that breaks when a request kind is added or edited without the check. *)
+Theorem C08_all_arms_guarded :
+  forallb arm_ok all_kinds = true /\
+  allowed_write_sites_as_expected = true /\ event_insert_guarded_by_has_user = true.
+Proof. exact all_arms_guarded. Qed.
+Print Assumptions C08_all_arms_guarded.
+
+(* (2) room.rs' is_user_valid_at on the Room built from ANY entry sequence = membership by the
+   accepted history (admin, or enabled user / user-admin of some group, entry in force at that date) *)
+Theorem C08_valid_is_membership : forall r evs k d,
+  is_user_valid_at (build r evs) k d = member_spec (accepted r evs) k d.
+Proof. exact valid_spec. Qed.
+Print Assumptions C08_valid_is_membership.
+
+(* (3) for every history of a connection (requests of every kind with any identifiers, handshake
+   events, definition changes, definition events) outside the two known classes: every item of
+   every answer belongs to a room of which the proven key is a member at that moment *)
+Theorem C08_outside_known : forall c, wf_case c = true -> known_C08 c = [] -> spec_C08 c (run_C08 c) = true.
+Proof. exact outside_known. Qed.
+Print Assumptions C08_outside_known.
+
+(* (4) before a key is proven on the connection no answer carries any item, whatever is asked *)
+Theorem C08_preauth : forall es self key i s,
+  o_bound s = false -> o_allowed s = [] -> ~ In OBind es ->
+  forall a, In a (orun self key i s es) -> snd a = [].
+Proof. exact preauth_nothing. Qed.
+Print Assumptions C08_preauth.
+
+(* (5) a room in which the key has no entry at any moment of the connection (never a member, in any
+   role) never enters allowed_room, is never listed, and every request naming it is refused *)
+Theorem C08_no_entry_not_served : forall es self key i s r,
+  NoDup (map fst (o_defs s)) -> ~ In r (o_allowed s) -> no_entry_along self key i s es r = true ->
+  Forall2 (answer_spares r) es (orun self key i s es) /\ ~ In r (o_allowed (ostate self key i s es)).
+Proof. exact no_entry_not_served. Qed.
+Print Assumptions C08_no_entry_not_served.
+
+(* (6) the property at full strength is refuted by the faithful model (and by the real code: the
+   two witnesses are the first two directed cases of the harness) *)
+Theorem C08_refuted :
+  wf_case k1_witness = true /\ spec_C08 k1_witness (run_C08 k1_witness) = false /\ known_C08 k1_witness = [1%Z] /\
+  wf_case k2_witness = true /\ spec_C08 k2_witness (run_C08 k2_witness) = false /\ known_C08 k2_witness = [2%Z].
+Proof. exact refuted. Qed.
+Print Assumptions C08_refuted.
+
+Example C08_nonvacuous_ex :
+  wf_case ok_witness = true /\ known_C08 ok_witness = [] /\
+  run_answers ok_witness = [(1%Z, []); (0%Z, []); (0%Z, []); (2%Z, [1]); (2%Z, [1]); (1%Z, []); (2%Z, [1]); (2%Z, [1]); (1%Z, [])].
+Proof. exact nonvacuous. Qed.
+Print Assumptions C08_nonvacuous_ex.
